@@ -1471,6 +1471,9 @@ class Emit:
                 if m == "extend_from_slice" and len(args) == 1: return [ind + f"{x} := {x} ++ {self.atom(args[0])}"]
                 if m == "drain" and len(args) == 1 and args[0][0] == "range" and args[0][2] is not None and not args[0][3]:
                     return [ind + f"{x} := Rs.drain_range {x} {self.atom(args[0][1])} {self.atom(args[0][2])}"]
+                if m == "push" and len(args) == 1 and recv[1][0] in self.unit.get("string_vars", []):
+                    # `OsString::push(&str)` / `String::push_str`: text appended (the spec names the variables that are texts)
+                    return [ind + f"{x} := {x} ++ {self.atom(args[0])}"]
                 if m == "push" and len(args) == 1: return [ind + f"{x} := {x} ++ [{self.ex(args[0])}]"]
                 if m == "push_str" and len(args) == 1: return [ind + f"{x} := {x} ++ {self.ex(args[0])}"]
                 if m == "clear" and not args: return [ind + f"{x} := Rs.clear {x}"]
